@@ -360,10 +360,15 @@ class Evaluator:
         return any(isinstance(n, ast.Name) and n.id in st.env for n in ast.walk(e))
 
     def attr(self, base: t.Any, name: str, node: ast.AST, st: State) -> t.Any:
+        if isinstance(base, STuple) and base.names is not None and name in base.names:
+            return base.items[base.names.index(name)]
         if isinstance(base, TRef):
             typ = base.typ
             if typ[0] == "opt":
                 typ = typ[1]
+            if typ[0] == "cls" and typ[1].qual in getattr(self.repo, "new_classes", set()) and any(x.endswith("NamedTuple") for x in typ[1].ext_bases) and not typ[1].methods and name in [p.name for p in typ[1].init_params()]:
+                # a field of a NamedTuple value is its item: seal.start is seal[0]
+                return self._nt_item(base, typ[1], [p.name for p in typ[1].init_params()].index(name))
             if typ[0] == "cls":
                 cls: Cls = typ[1]
                 fld = cls.field(name)
@@ -762,6 +767,16 @@ class Evaluator:
             if not step.is_const() or step.const <= 0:
                 raise Unsupported(f"{self.func.qual}:{e.lineno}: comprehension over a range with step {step!r}")
             count = (stop - start) if step.const == 1 else floordiv(stop - start + Lin(step.const - 1), step)
+            if count.is_const() and start.is_const() and 0 <= count.const <= 16:
+                # a small constant range is unrolled: [f(i) for i in range(3)] = [f(0), f(1), f(2)]
+                out_u = []
+                for k_ in range(count.const):
+                    sub_u = st.fork()
+                    sub_u.env[var] = Lin(start.const + k_ * step.const)
+                    out_u.append(self.eval(e.elt, sub_u))
+                    st.reads[:] = sub_u.reads
+                    st.calls[:] = sub_u.calls
+                return out_u
             return self._comp_range(e, var, count, st, start, step.const)
         if isinstance(it, STuple):
             it = list(it.items)
@@ -1129,16 +1144,45 @@ class Evaluator:
                 sub.env[aug.target.id] = ev.eval(ast.copy_location(ast.BinOp(left=cur, op=aug.op, right=aug.value), aug), sub)  # type: ignore[attr-defined]
         return ev.eval(body[-1].value, sub)
 
+    def _spread(self, v: t.Any, want: int, node: ast.AST) -> t.List[t.Any]:
+        """*v in a call: the items of a tuple value (known items, or the components of a tuple typed parameter)."""
+        if isinstance(v, STuple):
+            return list(v.items)
+        if isinstance(v, list):
+            return list(v)
+        if isinstance(v, TRef):
+            typ = v.typ[1] if v.typ[0] == "opt" else v.typ
+            if typ[0] == "tuple":
+                return [typed_value(f"{v.path}[{i}]", ty) for i, ty in enumerate(typ[1])]
+            if typ[0] == "cls" and any(x.endswith("NamedTuple") for x in typ[1].ext_bases):
+                return [self._nt_item(v, typ[1], i) for i in range(len(typ[1].init_params()))]
+        raise Unsupported(f"{self.func.qual}:{getattr(node, 'lineno', 0)}: starred argument {unparse(node)} of unknown arity")
+
+    def _nt_item(self, base: "TRef", cls: Cls, i: int) -> t.Any:
+        fld = cls.init_params()[i]
+        return typed_value(f"{base.path}[{i}]", parse_type(self.repo, fld.ann, self.repo.classes[fld.owner].mod))
+
     def construct(self, cls: Cls, e: ast.Call, kw: t.Dict[str, ast.expr], st: State) -> t.Any:
         if cls.enum_kind():
             v = self.eval(e.args[0], st)
             return v
         params = cls.init_params()
         fields: t.Dict[str, t.Any] = {}
-        for p, a in zip(params, e.args):
+        argvals: t.List[t.Any] = []
+        for a in e.args:
+            if isinstance(a, ast.Starred):
+                argvals.extend(self._spread(self.eval(a.value, st), len(params) - len(argvals), a))
+            else:
+                argvals.append(self.eval(a, st))
+        for p, av in zip(params, argvals):
+            fields[p.name] = av
+        for p, a in zip([], e.args):
             fields[p.name] = self.eval(a, st)
         for k, a in kw.items():
             fields[k] = self.eval(a, st)
+        if cls.qual in getattr(self.repo, "new_classes", set()) and any(x.endswith("NamedTuple") for x in cls.ext_bases) and not cls.methods and all(p.name in fields for p in params):
+            # a plain NamedTuple is a tuple whose items also have names
+            return STuple([fields[p.name] for p in params], [p.name for p in params])
         return SObj(cls, fields)
 
     def call_pkg_method(self, recv: t.Any, m: Func, e: ast.Call, kw: t.Dict[str, ast.expr], st: State) -> t.Any:
